@@ -948,7 +948,6 @@ async fn run_c16_async(plan: C16Plan, sched: Sched, record: bool) -> Outcome {
     let te = s.task_end.borrow().clone();
     let desc = format!("I={i_ms}ms T(requested)={t_req}ms T(effective)={t_ms}ms delays={:?} tail={:?} pings={} pongs={} task_end={:?}", plan.delays, plan.tail, pings.len(), pongs.len(), te.as_ref().map(|t| (t.1.clone(), t.2)));
     o.note = desc.clone();
-    let _ = t0;
     // ---- disabled: no ping is sent and no timeout ever occurs
     if i_ms == 0 {
         if !pings.is_empty() {
@@ -988,18 +987,25 @@ async fn run_c16_async(plan: C16Plan, sched: Sched, record: bool) -> Outcome {
             // last pong consumed before the decision, in event order
             // the decision precedes the Close the teardown sends; pongs consumed later (while winding
             // down, possibly at the same virtual instant) came too late for it
-            let dseq = l.evs.iter().find(|e| e.stage == Stage::Sent && e.from == 0 && matches!(&*e.w, Wire::Close)).map(|e| e.seq).unwrap_or(*tseq);
+            let close_seq = l.evs.iter().find(|e| e.stage == Stage::Sent && e.from == 0 && matches!(&*e.w, Wire::Close)).map(|e| e.seq).unwrap_or(*tseq);
+            // exactly: the decision is taken in the first poll of the connection task at the virtual
+            // instant of the fatal tick (the interval is ready from that instant on)
+            let fatal_tick = pings.last().map(|p| p.1 + ti).filter(|t| *t <= tau).unwrap_or(tau);
+            let dseq = s.sim.conn0_polls.iter().find(|(_, at)| at.duration_since(t0) >= fatal_tick).map(|(q, _)| *q).unwrap_or(close_seq).min(close_seq);
             let last = pongs.iter().filter(|(q, _)| *q < dseq).map(|(_, t)| *t).filter(|t| *t <= tau).last().unwrap_or(Duration::ZERO);
+            // the last pong that had *arrived* at the endpoint's socket before the decision, consumed or not:
+            // an implementation that looks at its socket before judging sees it
+            let last_arrived = l.evs.iter().filter(|e| e.stage == Stage::Delivered && e.from == 1 && matches!(&*e.w, Wire::Pong) && e.seq < dseq).map(|e| e.t).last().unwrap_or(Duration::ZERO);
             // a pong consumed at the very instant of the fatal tick but after it in event order does not count
             let decided_at = pings.last().map(|p| p.1 + ti).filter(|t| *t <= tau).unwrap_or(tau);
             let age = decided_at.saturating_sub(last);
             o.probe("keepalive-timeout-fired", 1);
             if live_within_t {
                 // S2: every ping was answered within T, yet the endpoint timed out
-                if age > tt {
+                if decided_at.saturating_sub(last_arrived) > tt {
                     o.violate("C16:timeout-live-peer:last-pong-older-than-T", format!("every ping was answered within T but the gap between pongs exceeded T: last pong at {last:?}, timeout decided at {decided_at:?}; {desc}"));
                 } else {
-                    o.violate("C16:timeout-live-peer:last-pong-within-T", format!("every ping was answered within T and the last pong ({last:?}) was younger than T at the decision ({decided_at:?}), yet the endpoint timed out; {desc}"));
+                    o.violate("C16:timeout-live-peer:last-pong-within-T", format!("every ping was answered within T and the last pong to arrive ({last_arrived:?}; last one processed: {last:?}) was younger than T at the decision ({decided_at:?}), yet the endpoint timed out; {desc}"));
                 }
             } else {
                 // S1: no earlier than T and no later than T + I after the last pong (or start-up)
